@@ -509,7 +509,10 @@ func c08R5(r *Report) {
 	p := r.P
 	fce := optCond("ForceCryptoHandshake")
 	fe := optCond("ForceEncryption")
-	reqs := []edgeReq{{Name: "!ForceCryptoHandshake", Cond: fce, Pol: false}, {Name: "!ForceEncryption", Cond: fe, Pol: false}}
+	reqs := []edgeReq{
+		{Name: "!ForceCryptoHandshake", ViaHelper: true, Match: func(c ssa.Value, pol bool) bool { return !pol && fce(c) }},
+		{Name: "!ForceEncryption", ViaHelper: true, Match: func(c ssa.Value, pol bool) bool { return !pol && fe(c) }},
+	}
 	// (a) server: from checkHeader(buf) == true, every path that reaches the handshake reply without going through
 	// crypto.ServerHandshake tested both force bits false
 	sh := p.Func("protocol", "ServerHandshake")
